@@ -253,6 +253,32 @@ def method_call(eng, node, st, preargs=None):
     kwargs = {kw.arg: eng.ev(kw.value, st) for kw in node.keywords}
     if isinstance(base, ListV):
         if mname == "append":
+            named = getattr(eng.contract.cls, "named_appends", False) if eng.contract is not None else False
+            v0 = args[0]
+            n0 = z3.simplify(base.n)
+            if named and not eng.concrete and not (z3.is_int_value(n0)) and (isinstance(v0, (IntV, int)) or (isinstance(v0, TupV) and all(isinstance(x, (IntV, int)) for x in v0.items))):
+                # NAMED APPEND (opt-in per contract): the new list is a fresh function (one per component) with
+                # definitional axioms, so that quantified facts about it have triggers  new(m)  and the
+                # term  new(len)  exists
+                comps = list(v0.items) if isinstance(v0, TupV) else [v0]
+                old_fn, n_ = base.fn, base.n
+                news = [fresh_fun("app", z3.IntSort(), z3.IntSort()) for _ in comps]
+                m = fresh("am")
+                for k_, (nf, cv) in enumerate(zip(news, comps)):
+                    old_k = (lambda j, k_=k_: Z(old_fn(j).items[k_])) if isinstance(v0, TupV) else (lambda j: Z(old_fn(j)))
+                    body = z3.Implies(z3.And(m >= 0, m < n_), nf(m) == old_k(m))
+                    pats = [nf(m)]
+                    om = old_k(m)
+                    if dsl._pat_ok(om):
+                        pats.append(om)
+                    st.assume(z3.ForAll([m], body, patterns=pats, qid="named-append"))
+                    st.assume(nf(n_) == Z(cv))
+                if isinstance(v0, TupV):
+                    base.fn = lambda j, news=news: TupV([IntV(nf(j)) for nf in news])
+                else:
+                    base.fn = lambda j, news=news: IntV(news[0](j))
+                base.n = n_ + 1
+                return NONE
             base.append(args[0])
             return NONE
         if mname == "extend":
@@ -484,7 +510,9 @@ def b_list(eng, st, a, kw):
 
 def b_set(eng, st, a, kw):
     if not a:
-        return SetV(lambda v: z3.BoolVal(False), 1)
+        out = SetV(lambda v: z3.BoolVal(False), 1)
+        out.is_empty = True
+        return out
     return eng.to_set(a[0], st)
 
 
